@@ -171,6 +171,30 @@ def run(ctx):
         else:
             H.violation("monkeytype.stubs:ModuleStub.render", "order-dependent:case-only-names:%d" % len(seen), "the stub of a module with names differing only in case depends on the order in which traces arrive",
                         {"traces": [repr(t) for t in trs]}, [k_[-200:] for k_ in list(seen)[:3]])
+        # ---- a large union of classes with two common bases in different MRO positions: the rewriter walks the first member's MRO only,
+        #      and which member is first follows the class objects' addresses (set iteration): one fresh interpreter per memory layout
+        H.section("large union, several common bases", "six classes, three `(Loggable, Serializable)` and three `(Serializable, Loggable)`, traced once each at one position; default rewriter; "
+                  "fresh interpreters that allocate 0..7 x 7 unrelated classes first (different addresses, hence set order): one stub", "8 interpreters")
+        with open(os.path.join(fx.dir, "c14mro.py"), "w") as f_:
+            f_.write("class Loggable:\n    pass\n\nclass Serializable:\n    pass\n\n" + "".join("class A%d(Loggable, Serializable):\n    pass\n\n" % i for i in range(3))
+                     + "".join("class B%d(Serializable, Loggable):\n    pass\n\n" % i for i in range(3)) + "def save(x):\n    return None\n")
+        MRO_DRIVER = ("import sys\npad = int(sys.argv[1])\njunk = [type('J%d' % i, (), {}) for i in range(pad * 7)]\nimport c14mro as mm\n"
+                      "from monkeytype.tracing import CallTrace\nfrom monkeytype.stubs import build_module_stubs_from_traces\nfrom monkeytype.typing import DEFAULT_REWRITER\n"
+                      "trs = [CallTrace(mm.save, {'x': getattr(mm, n)}, type(None)) for n in ('A0', 'B0', 'A1', 'B1', 'A2', 'B2')]\n"
+                      "print(build_module_stubs_from_traces(trs, 0, rewriter=DEFAULT_REWRITER)['c14mro'].render())\n")
+        outs = []
+        for pad in range(8):
+            env = dict(os.environ, PYTHONHASHSEED="1", PYTHONPATH=os.pathsep.join([fx.dir] + [p for p in sys.path if p]))
+            p_ = subprocess.run([sys.executable, "-c", MRO_DRIVER, str(pad)], env=env, capture_output=True, text=True, cwd=fx.dir, timeout=120)
+            outs.append(canon(p_.stdout) if p_.returncode == 0 else "ERROR " + p_.stderr[-300:])
+        if len(set(outs)) == 1 and not outs[0].startswith("ERROR"):
+            H.ok("large-union-mro", sample={"stub": outs[0][-120:]})
+        elif any(o.startswith("ERROR") for o in outs):
+            H.violation("monkeytype.typing:RewriteLargeUnion.rewrite_Union", "large-union-mro-raises", "stub generation fails", {}, [o for o in outs if o.startswith("ERROR")][:2])
+        else:
+            H.violation("monkeytype.typing:RewriteLargeUnion.rewrite_Union", "C14-large-union-first-member-mro",
+                        "RewriteLargeUnion picks the first common ancestor in the MRO of the union's *first* member: with several common bases the annotation depends on the memory layout of the process / the history of the store",
+                        {"classes": "A0-2(Loggable, Serializable), B0-2(Serializable, Loggable)"}, sorted(set(o[-60:] for o in outs)))
         for mn in ("c14same_a", "c14same_b"):
             sys.modules.pop(mn, None)
         # ---- raw duplicates beyond the query limit must not crowd out distinct traces
